@@ -3,8 +3,7 @@ from pyvc.shapes import *
 from specs.dwarf import StructsT, CUT, SecT
 from specs.lists import gaddr, word_at_addr, offset_word, is_kind, rnglist_at, loclist_at, has_base, base_of, loc_off, u16_at
 
-DInfoT = Obj('DWARFInfo', debug_addr_sec=Opt(SecT), structs=StructsT)
-CUArg = Obj('CompileUnit', cu_offset=Nat, dwarfinfo=DInfoT, header=Rec(version=U16, address_size=U8), structs=StructsT)
+from contracts._dwarf_shapes import DInfoT, CUArg
 COMMON = dict(entry_offset=Nat, entry_length=Nat, entry_end_offset=Nat, entry_type=CodeT(8))
 RangeEntryT = Rec('RangeEntry', entry_offset=Nat, entry_length=Nat, begin_offset=Int, end_offset=Int, is_absolute=Bool)
 RBaseT = Rec('BaseAddressEntry', entry_offset=Nat, base_address=Nat)
@@ -20,8 +19,9 @@ class get_addr:
     DW_AT_addr_base + index * address_size of .debug_addr; no section, no address"""
     params = dict(self=SameAs('cu.dwarfinfo'), cu=CUArg, addr_index=Nat)
     returns = Nat
+    modifies = ["*rep"]         # the unit's root entry may be parsed and cached on the way
     ensures = ["self.debug_addr_sec is not None", "has_base(cu, 'DW_AT_addr_base')", "result == gaddr(cu, addr_index)"]
-    may_raise = ["DWARFError", "ELFParseError", "OverflowError"]
+    may_raise = ["DWARFError", "ELFParseError", "OverflowError", "KeyError"]
 
 
 def _tr(relpath, qual, kind, fields, ret, ensures, doc):
@@ -33,8 +33,9 @@ def _tr(relpath, qual, kind, fields, ret, ensures, doc):
     class _t:
         __doc__ = doc
         params = dict(e=shape, cu=CUArg)
+        modifies = ["*rep"]
         returns = ret
-        may_raise = ["DWARFError", "ELFParseError", "OverflowError"]
+        may_raise = ["DWARFError", "ELFParseError", "OverflowError", "KeyError"]
     c = REGISTRY[(relpath, qual)]
     c.ensures = ["is_kind(result, '%s')" % ret.kind, "result.entry_offset == e.entry_offset"] + list(ensures)
     c.entry_kind = kind
@@ -126,13 +127,14 @@ class parse_range_list:
         invariant=["self.stream.pos == $p + 2 * $W * $k", "len(lst) == $k"] + [x % '$k' for x in V4R_INV],
         shapes={"lst": ListOf(RElemT)},
         variant="len($B) + 1 - self.stream.pos")}
-    maps = {0: dict(elem=RElemT, ensures=kind_clauses(R, 'value', 'entry'))}
+    maps = {0: dict(elem=RElemT, ensures=kind_clauses(R, 'value', 'entry'), rep=True)}
+    modifies = ["*rep"]
     ensures = ["self.version >= 5 or (word_at_addr($B, $p + 2 * $W * len(result), $W) == 0 and word_at_addr($B, $p + 2 * $W * len(result) + $W, $W) == 0)"] + \
               ["self.version >= 5 or " + (x % 'len(result)').replace('lst[', 'result[') for x in V4R_INV] + \
               ["self.version < 5 or len(result) == len(rnglist_at($B, $p))"] + \
               ["self.version < 5 or forall(lambda j: %s, 0, len(result))" % c
                for c in kind_clauses(R, 'result[j]', 'rnglist_at($B, $p)[j]')]
-    may_raise = ["ELFParseError", "DWARFError", "OverflowError"]
+    may_raise = ["ELFParseError", "DWARFError", "OverflowError", "KeyError"]
 
 
 LLT = Obj('LocationLists', stream=Stream, structs=StructsT, _max_addr=Nat, version=Choice(4, 5), dwarfinfo=Any)
@@ -176,7 +178,8 @@ class parse_location_list_v5:
     params = dict(self=LLT, cu=CUArg)
     ghost = {"$B": "self.stream.B", "$p": "self.stream.pos"}
     returns = ListOf(LElemT)
-    maps = {0: dict(elem=LElemT, ensures=kind_clauses(L, 'value', 'entry'))}
+    maps = {0: dict(elem=LElemT, ensures=kind_clauses(L, 'value', 'entry'), rep=True)}
+    modifies = ["*rep"]
     ensures = ["len(result) == len(loclist_at($B, $p))"] + \
               ["forall(lambda j: %s, 0, len(result))" % c for c in kind_clauses(L, 'result[j]', 'loclist_at($B, $p)[j]')]
-    may_raise = ["ELFParseError", "DWARFError", "OverflowError"]
+    may_raise = ["ELFParseError", "DWARFError", "OverflowError", "KeyError"]
